@@ -314,9 +314,6 @@ func (in *Interp) lookup(fr *Frame, x *ssa.Lookup) Value {
 func (in *Interp) rangeInit(v Value) Value {
 	switch x := v.(type) {
 	case Str:
-		if x.B != nil {
-			panic(in.unsupported("range over symbolic string"))
-		}
 		return &RangeIter{Str: &x}
 	case *MapV:
 		it := &RangeIter{Map: x}
@@ -328,6 +325,16 @@ func (in *Interp) rangeInit(v Value) Value {
 }
 
 func (in *Interp) rangeNext(x *ssa.Next, it *RangeIter) Value {
+	if x.IsString && it.Str.B != nil {
+		b := it.Str.B
+		if it.Pos >= len(b) {
+			return Tuple{term.False, term.Const(64, 0), term.Const(32, 0)}
+		}
+		r, n := in.decodeRuneSym(b[it.Pos:])
+		p := it.Pos
+		it.Pos += n
+		return Tuple{term.True, term.Const(64, uint64(p)), r}
+	}
 	if x.IsString {
 		s := it.Str.S
 		if it.Pos >= len(s) {
